@@ -583,6 +583,48 @@ def stage_kshape(ctx):
 
 
 # ------------------------------------------------------------------------------------------------
+# stage: group exchange with an independent peer and unusual (min, n, max) requests
+
+def stage_gex(ctx):
+    """The exchange hash of RFC 4419 covers the request exactly as the client sent it.  An implementation that
+    re-encodes the request from the values it decided to use agrees with itself but not with an RFC peer."""
+    from .. import minissh_selftest as T
+    reqs = [(1024, 2048, 8192), (512, 1024, 8192), (1, 2048, 2048), (2048,), (1024, 1024, 1024), (4096, 1024, 8192),
+            (0, 0, 8192), (1023, 1023, 4096)]
+    okc = fails = 0
+    for kex in (b'diffie-hellman-group-exchange-sha256', b'diffie-hellman-group-exchange-sha1'):
+        for req in (reqs if ctx.tier == 'thorough' or kex.endswith(b'256') else reqs[:3]):
+            if fails >= 3:
+                break
+            try:
+                sshutil.run(T.mini_as_client(kex, b'aes128-ctr', b'hmac-sha2-256', sizes=[0, 1, 40], gex_request=req),
+                            timeout=120)
+                okc += 1
+                ctx.note_case(('gex', kex, req), nontrivial=req != (1024, 2048, 8192))
+                ctx.count('gex.client')
+            except Exception as e:
+                if 'no_common' in repr(e) or 'unusable group' in repr(e):
+                    ctx.count('gex.refused')
+                    continue
+                fails += 1
+                ctx.failing_input(
+                    f'independent RFC 4419 client cannot complete {kex.decode()} with an asyncssh server for the request '
+                    f'(min, n, max) = {req}: {e!r}',
+                    {'kind': 'gex', 'kex': kex.decode(), 'request': list(req), 'error': repr(e)})
+        try:
+            sshutil.run(T.mini_as_server(kex, b'aes128-ctr', b'hmac-sha2-256', sizes=[0, 1, 40]), timeout=120)
+            okc += 1
+            ctx.count('gex.server')
+        except Exception as e:
+            fails += 1
+            ctx.failing_input(f'independent RFC 4419 server cannot complete {kex.decode()} with an asyncssh client: {e!r}',
+                              {'kind': 'gex', 'kex': kex.decode(), 'request': None, 'error': repr(e)})
+    ctx.cov['oracle']['gex_sessions_ok'] = okc
+    if okc < 4 and fails < 3:
+        ctx.broke('vacuity:gex', f'only {okc} group-exchange sessions ran')
+
+
+# ------------------------------------------------------------------------------------------------
 # stage: compression with an independent peer, across re-keys (RFC 4253 6.2: context re-initialised per exchange)
 
 def stage_compress(ctx):
@@ -618,7 +660,7 @@ def run(ctx):
                        'generated streams of well-formed, misaligned, short-padded, empty-payload and short-length packets '
                        'under generated chunkings; (c) key derivation with a toy hash injected into Kex.compute_key; (d) '
                        'echo sessions over 1-byte / random / coalescing wires with re-keying; (e) OpenSSH client against an '
-                       'asyncssh server; (f) handshakes with an independent server that forces the shared secret K through its mpint shapes; (g) compressed sessions with the independent peer across re-keys. non-trivial = encrypted packet / more than one chunk / more than one digest block')
+                       'asyncssh server; (f) handshakes with an independent server that forces the shared secret K through its mpint shapes; (g) compressed sessions with the independent peer across re-keys; (h) group exchange with the independent peer and unusual (min, n, max) requests. non-trivial = encrypted packet / more than one chunk / more than one digest block')
     ctx.cov['trusted_base'] += [
         'MiniSSH (harness/minissh.py, primitives from PyCA cryptography / hashlib only) as the independent RFC 4253 peer; '
         'its own self test incl. a cross check against the OpenSSH client is run by `python -m harness.minissh_selftest`',
@@ -643,6 +685,7 @@ def run(ctx):
     stage_minissh(ctx)
     stage_kshape(ctx)
     stage_compress(ctx)
+    stage_gex(ctx)
     stage_e2e(ctx)
     stage_openssh(ctx)
 
@@ -657,6 +700,18 @@ def replay(rp):
         return 1 if a != b else 0
     if str(rp.get('kind', '')).startswith('enc_'):
         return c02_enc.replay_enc(rp)
+    if rp.get('kind') == 'gex':
+        from .. import minissh_selftest as T
+        try:
+            if rp['request'] is None:
+                sshutil.run(T.mini_as_server(rp['kex'].encode(), b'aes128-ctr', b'hmac-sha2-256', sizes=[0, 1, 40]), timeout=120)
+            else:
+                sshutil.run(T.mini_as_client(rp['kex'].encode(), b'aes128-ctr', b'hmac-sha2-256', sizes=[0, 1, 40],
+                                             gex_request=rp['request']), timeout=120)
+        except Exception as e:
+            print('still fails:', repr(e))
+            return 1
+        return 0
     if rp.get('kind') == 'compress':
         from .. import minissh_selftest as T
         f = T.mini_as_client if rp['role'] == 'client' else T.mini_as_server
